@@ -129,11 +129,14 @@ type knownFinding struct {
 	Key      string `json:"key"`
 	What     string `json:"what"`
 	Evidence string `json:"evidence,omitempty"`
-	Fixed    string `json:"fixed,omitempty"`
 }
 
+// loadKnown reads /verif/known_findings.txt: one entry per line, either
+//   fixed: property=<id> <commit> <what failed>      (repaired defect; suppresses nothing)
+//   finding: {"property":..,"rule":..,"key":..,"what":..,"evidence":..}
+// The file is committed and never written at run time.
 func loadKnown() []knownFinding {
-	f, err := os.Open(filepath.Join(verifDir(), "known_findings.jsonl"))
+	f, err := os.Open(filepath.Join(verifDir(), "known_findings.txt"))
 	if err != nil {
 		return nil
 	}
@@ -143,12 +146,15 @@ func loadKnown() []knownFinding {
 	sc.Buffer(make([]byte, 1<<20), 1<<20)
 	for sc.Scan() {
 		line := strings.TrimSpace(sc.Text())
-		if line == "" || strings.HasPrefix(line, "#") {
+		if line == "" || strings.HasPrefix(line, "#") || strings.HasPrefix(line, "fixed:") {
 			continue
 		}
+		if !strings.HasPrefix(line, "finding:") {
+			broken("known_findings.txt: unrecognised line: %s", line)
+		}
 		var k knownFinding
-		if err := json.Unmarshal([]byte(line), &k); err != nil {
-			broken("known_findings.jsonl: %v: %s", err, line)
+		if err := json.Unmarshal([]byte(strings.TrimSpace(strings.TrimPrefix(line, "finding:"))), &k); err != nil {
+			broken("known_findings.txt: %v: %s", err, line)
 		}
 		out = append(out, k)
 	}
@@ -170,8 +176,8 @@ func (r *Report) Finish(writeEvidence bool) int {
 	}
 	known := map[string]knownFinding{}
 	for _, k := range loadKnown() {
-		if k.Fixed != "" || k.Property != r.Prop {
-			continue // a fixed entry suppresses nothing
+		if k.Property != r.Prop {
+			continue
 		}
 		known[k.Rule+"\x00"+k.Key] = k
 	}
